@@ -118,6 +118,29 @@ def check(tier, seed):
             a, b = ck.value()
             cases.append(Case('checksum-observe-reset', 'ck ' + C.hexs(bytes(since)), f'{a} {b}' if ok else 'observation-wrong',
                               {'ops': trace, 'since_last_reset': since}, nontrivial=False, kind='observe-reset'))
+        # an add() that is REFUSED (TypeError for None / str / bytes arguments) adds no byte: the sums describe the accepted bytes only
+        for _ in range(120 if tier == 'quick' else 4000):
+            ck = Checksum()
+            acc = []
+            ok = True
+            for _s in range(rng.randrange(2, 14)):
+                if rng.random() < 0.3:
+                    bad = rng.choice([None, 'x', b'a', '7', [1]])
+                    try:
+                        ck.add(bad)
+                        ok = False          # accepted something that is no byte: outside the property
+                    except TypeError:
+                        pass
+                    except Exception:      # noqa
+                        ok = False
+                else:
+                    x = rng.randrange(256)
+                    acc.append(x)
+                    ck.add(x)
+            if not ok:
+                continue
+            a, b = ck.value()
+            cases.append(Case('checksum-refused-adds', 'ck ' + C.hexs(bytes(acc)), f'{a} {b}' if ck.matches(a, b) else f'{a} {b} no-match', {'ops': acc, 'with_refused_calls_in_between': True}, kind='refused-adds'))
         # copies of a checksum object (copy.copy / copy.deepcopy / pickle) continue independently of the original
         import copy
         import pickle
